@@ -26,6 +26,21 @@ def impl_iter(dag):
     return [ops.index(o) for o in p.values], [ops.index(o) for o in p.runtime_status().operator_states]
 
 
+def impl_iter_interleaved(dag):
+    """the same DAG, iterated (twice) after every node that is added, and twice at the end: iteration must not depend on earlier iterations"""
+    if REPO not in sys.path:
+        sys.path.insert(0, REPO)
+    from eudoxia.workload.pipeline import Pipeline
+    from eudoxia.utils import Priority
+    p = Pipeline("p", Priority.BATCH_PIPELINE)
+    ops, partial = [], []
+    for par in dag:
+        ops.append(p.new_operator([ops[i] for i in par] if par else None))
+        partial.append([ops.index(o) for o in p.values])
+        list(p.values)
+    return [ops.index(o) for o in p.values], [ops.index(o) for o in p.values], partial
+
+
 def check_dags(ctx, dags, drv, exhaustive_upto=None):
     n_div = 0
     for dag in dags:
@@ -44,6 +59,12 @@ def check_dags(ctx, dags, drv, exhaustive_upto=None):
             ctx.violations.append({"what": f"iterating the DAG {dag} yields {order}: not every operator exactly once with parents first"
                                            if not r["topoPerm"] else f"operator_states order {status_order} differs from iteration order {order}",
                                    "layer": "W", "dag": dag, "observed": order, "model": r["iter"], "sig": {"clause": "iteration"}})
+            return
+        # iterating while the DAG is being built, and iterating again, gives the same answer as iterating the finished DAG once
+        o1, o2, partial = impl_iter_interleaved(dag)
+        if o1 != order or o2 != order or any(sorted(pp) != list(range(k + 1)) for k, pp in enumerate(partial)):
+            ctx.violations.append({"what": f"iteration of the DAG {dag} depends on earlier iterations: fresh {order}, after iterating during construction {o1}, "
+                                           f"again {o2}, prefixes {partial}", "layer": "W", "dag": dag, "sig": {"clause": "iteration-repeatable"}})
             return
         if r["iter"] != order and n_div < 1:
             n_div += 1
